@@ -40,6 +40,8 @@ struct AllocLedger {
 	size_t bad = 0;		// deallocation of an unknown block, through an unequal allocator, or with a wrong size
 	size_t allocs = 0;
 	std::string firstBad;
+	long failCountdown = -1;	// one-shot fault: the (failCountdown+1)-th allocation from now throws std::bad_alloc
+	bool fired = false;
 };
 inline AllocLedger& ledger() { static AllocLedger l; return l; }
 
@@ -55,6 +57,7 @@ struct SA {
 	explicit SA(int i = 0) noexcept : id(i) {}
 	template<typename U> SA(const SA<U, PCA, PMA, PS>& o) noexcept : id(o.id) {}
 	T* allocate(size_t n) {
+		{ AllocLedger& l = ledger(); if (l.failCountdown == 0) { l.failCountdown = -1; l.fired = true; throw std::bad_alloc(); } if (l.failCountdown > 0) --l.failCountdown; }
 		void* p = ::operator new(n * sizeof(T));
 		ledger().live[p] = AllocLedger::Block{ id, n * sizeof(T) };
 		++ledger().allocs;
